@@ -40,36 +40,36 @@ pub fn run_property(prop: &str, tier: Tier, seed: u64, scale: f64) -> i32 {
     let mut exhaustive = None;
     let batches: Vec<BatchOut> = match prop {
         "C02" => vec![batch(&Offer { mode: OfferMode::State }, tier, seed, 60_000, 1_500_000, scale)],
-        "C01" => vec![batch(&Pair { mode: PairMode::Converge }, tier, seed, 40_000, 1_000_000, scale)],
-        "C03" => vec![batch(&Forge, tier, seed, 40_000, 1_000_000, scale)],
-        "C04" => vec![batch(&Swarm, tier, seed, 6_000, 150_000, scale)],
-        "C05" => vec![batch(&QueryScen, tier, seed, 40_000, 1_000_000, scale)],
+        "C01" => vec![batch(&Pair { mode: PairMode::Converge }, tier, seed, 80_000, 1_500_000, scale)],
+        "C03" => vec![batch(&Forge, tier, seed, 60_000, 1_500_000, scale)],
+        "C04" => vec![batch(&Swarm, tier, seed, 15_000, 300_000, scale)],
+        "C05" => vec![batch(&QueryScen, tier, seed, 150_000, 3_000_000, scale)],
         "C06" => {
             level = "fault_enumeration";
             exhaustive = Some(false);
             extra.insert("exhaustive_scope".into(), serde_json::json!("per sampled history the crash-point x loss-model (L1,L2) x single age-commit placement space is enumerated completely; the histories themselves (and L3/torn/EIO/double placements) are sampled"));
-            vec![batch(&Crash, tier, seed, 1_500, 20_000, scale)]
+            vec![batch(&Crash, tier, seed, 4_000, 12_000, scale)]
         }
-        "C07" => vec![batch(&Docs { mode: DocsMode::Cap }, tier, seed, 40_000, 1_000_000, scale)],
+        "C07" => vec![batch(&Docs { mode: DocsMode::Cap }, tier, seed, 100_000, 2_000_000, scale)],
         "C09" => vec![
-            batch(&Wire, tier, seed, 150_000, 4_000_000, scale),
+            batch(&Wire, tier, seed, 600_000, 10_000_000, scale),
             batch(&Decoders { mode: PureMode::Codecs }, tier, seed, 40_000, 1_000_000, scale),
         ],
-        "C10" => vec![batch(&Session, tier, seed, 30_000, 800_000, scale)],
-        "C11" => vec![batch(&Coord, tier, seed, 4_000, 100_000, scale)],
-        "C12" => vec![batch(&Events, tier, seed, 30_000, 800_000, scale)],
+        "C10" => vec![batch(&Session, tier, seed, 80_000, 1_500_000, scale)],
+        "C11" => vec![batch(&Coord, tier, seed, 25_000, 500_000, scale)],
+        "C12" => vec![batch(&Events, tier, seed, 120_000, 2_500_000, scale)],
         "C14" => vec![batch(&ActorScen, tier, seed, 30_000, 800_000, scale)],
         "C15" => vec![
             batch(&Docs { mode: DocsMode::Policy }, tier, seed, 40_000, 1_000_000, scale),
             batch(&Decoders { mode: PureMode::Filters }, tier, seed, 20_000, 500_000, scale),
         ],
-        "C16" => vec![batch(&Docs { mode: DocsMode::Remove }, tier, seed, 30_000, 800_000, scale)],
+        "C16" => vec![batch(&Docs { mode: DocsMode::Remove }, tier, seed, 70_000, 1_500_000, scale)],
         "C17" => vec![
             batch(&Docs { mode: DocsMode::Peers }, tier, seed, 40_000, 1_000_000, scale),
             batch(&Docs { mode: DocsMode::PeersClockFault }, tier, seed, 10_000, 200_000, scale),
         ],
         "C18" => vec![batch(&Docs { mode: DocsMode::Migrate }, tier, seed, 30_000, 800_000, scale)],
-        "C08" => vec![batch(&Pair { mode: PairMode::Differential }, tier, seed, 15_000, 400_000, scale)],
+        "C08" => vec![batch(&Pair { mode: PairMode::Differential }, tier, seed, 50_000, 800_000, scale)],
         "C13" => vec![
             batch(&Offer { mode: OfferMode::Heads }, tier, seed, 60_000, 1_500_000, scale),
             batch(&Decoders { mode: PureMode::Heads }, tier, seed, 20_000, 500_000, scale),
@@ -80,7 +80,7 @@ pub fn run_property(prop: &str, tier: Tier, seed: u64, scale: f64) -> i32 {
         }
     };
     let _ = (&mut extra, &mut assumptions);
-    finish_check(CheckOut { property: prop.to_string(), level, batches, extra, assumptions, exhaustive }, tier, seed, wall)
+    finish_check(CheckOut { property: prop.to_string(), level, batches, extra, assumptions, exhaustive, distinct_is_states: prop == "C06" }, tier, seed, wall)
 }
 
 fn replay_dispatch(prop: &str, scenario: &str, plan: Value) -> Result<(Option<crate::runner::Violation>, u64, Vec<String>), String> {
@@ -166,6 +166,7 @@ pub fn determinism(prop: Option<&str>, seeds: u64) -> i32 {
     fn twice<S: Scenario>(s: &S, seeds: u64, bad: &mut Vec<String>) {
         let name = s.name();
         let t = threads();
+        let print_only = std::env::var_os("VERIF_PRINT_HASHES").is_some();
         let results: Vec<Vec<(u64, u64, u64)>> = [1usize, t].iter().map(|threads| {
             let out = std::sync::Mutex::new(Vec::new());
             let next = std::sync::atomic::AtomicU64::new(0);
@@ -187,11 +188,19 @@ pub fn determinism(prop: Option<&str>, seeds: u64) -> i32 {
             v.sort();
             v
         }).collect();
+        if print_only {
+            // one line per run, for comparison between separate processes
+            for (run, h, v) in &results[1] {
+                println!("HASH {name} {run} {h:016x} {v:x}");
+            }
+        }
         if results[0] != results[1] {
             let n = results[0].iter().zip(results[1].iter()).filter(|(a, b)| a != b).count();
             bad.push(format!("{name}: {n} of {seeds} runs differ between two executions"));
         } else {
-            println!("determinism {name}: {seeds} runs x 2 executions (1 and {t} threads) identical");
+            if !print_only {
+                println!("determinism {name}: {seeds} runs x 2 executions (1 and {t} threads) identical");
+            }
         }
     }
     let mut bad = Vec::new();
